@@ -89,6 +89,10 @@ def run_impl(case):
         a, b = fl(case["a"]), fl(case["b"])
         t2, e2 = Scores(a * pos.astype(float) + b, a * neg.astype(float) + b, **kw).eer()
         out["aff"] = [enc(float(t2)), enc(float(e2))]
+    # reversing the score direction: negated scores, score_class flipped, same equal_class
+    kwn = dict(kw, score_class="neg" if case["sc"] == "pos" else "pos")
+    t3, e3 = Scores(-pos.astype(float), -neg.astype(float), **kwn).eer()
+    out["rev"] = [enc(float(t3)), enc(float(e3))]
     return out
 
 
@@ -138,6 +142,13 @@ def oracle(case, res):
                 fails.append((f"C06/affine-eer/{cfg}", f"eer {e} became {e2} under x -> {a}x+{b}"))
             if abs(t2 - (a * t + b)) > a * (eps * len(allv) * spread + Fraction(1, 2 ** 40)):
                 fails.append((f"C06/affine-threshold/{cfg}", f"threshold {t} mapped to {t2}, expected {a * t + b}"))
+        if "rev" in r:
+            t3, e3 = F(r["rev"][0]), F(r["rev"][1])
+            spread = max(allv) - min(allv) + 1
+            if abs(e3 - e) > eps:
+                fails.append((f"C06/reverse-eer/{cfg}", f"eer {e} became {e3} when the scores are negated and score_class flipped"))
+            if abs(t3 + t) > eps * len(allv) * spread + Fraction(1, 2 ** 40):
+                fails.append((f"C06/reverse-threshold/{cfg}", f"threshold {t}: the reversed object returns {t3}, expected {-t}"))
     return fails
 
 
